@@ -102,12 +102,12 @@ func c09Schedules(r *gen.Rand, k int) []wire.Sched {
 }
 
 type c09Obs struct {
-	Clause string   `json:"clause"`
-	Task   int      `json:"task"`
-	Op     int      `json:"op"`
-	Got    string   `json:"got"`
-	Want   string   `json:"want"`
-	Stderr string   `json:"stderr,omitempty"`
+	Clause string `json:"clause"`
+	Task   int    `json:"task"`
+	Op     int    `json:"op"`
+	Got    string `json:"got"`
+	Want   string `json:"want"`
+	Stderr string `json:"stderr,omitempty"`
 }
 
 type c09Runner struct {
